@@ -117,6 +117,9 @@ class Gen:
         names = [n for n, k in sc["names"].items() if k in ("tmp", "arg", "locsig", "ref", "refv", "alias8", "alias8x")]
         if names and not sigonly and r < 0.25:
             n = rng.choice(names)
+            if sc["names"][n] == "locsig" and rng.random() < 0.4:
+                self.stat("local-signal-read-through-view")
+                return ["nview", n, "unsigned"]
             return ["name", n]
         if r < 0.55:
             return ["obj", rng.choice(RD_SIG8 if not sc.get("noq") else [n for n in RD_SIG8 if n != "q0"])]
@@ -173,6 +176,10 @@ class Gen:
         r = rng.random()
         if sc.get("lv") and r < 0.3:
             return ["bitlv", rng.choice(["x", "y"])]
+        locs = [n for n, k in sc["names"].items() if k == "locsig"]
+        if locs and not (sigonly or sc.get("sigonly")) and rng.random() < 0.3:
+            self.stat("local-signal-read-through-index")
+            return ["nsl", rng.choice(locs), rng.randrange(8), 1]
         if r < 0.6:
             return ["obj", rng.choice(["c0", "c1", "c2", "c3"])]
         pool = ["x", "y", "o0", "s0"] + ([] if (sigonly or sc.get("sigonly")) else ["v0"])
@@ -468,6 +475,18 @@ class Gen:
                     self.stat("always-assign")
                     self.alwq = True
                     out.append(["alwq", "q1", self.expr8(dict(sc, sigonly=True, noq=True, names={}), 1, True, False)])
+            elif r < 0.955 and sc["main"] and sc["scope_top"] and self.nsplit < 3 and not sc.get("lv"):
+                # `return` in the process function: the rest of the activation is skipped
+                self.nsplit += 1
+                s2 = self.sub(sc)
+                s2["scope_top"] = False
+                if rng.random() < 0.5:
+                    self.stat("main-if-return")
+                    out.append(["if", [[self.cond(sc), self.block(s2, 0, n=rng.choice([0, 1])) + [["ret", None]]]], None])
+                else:
+                    self.stat("main-for-return-no-else")
+                    s2["lv"] = True
+                    out.append(["forret", rng.choice([2, 3]), self.lv_cond(sc), self.block(s2, 0, n=rng.choice([0, 1])) + [["ret", None]], None])
             elif self.ncalls < 3 and sc["calldepth"] < 2:
                 out.append(self.gen_call(sc, depth))
             else:
@@ -516,7 +535,19 @@ class Gen:
             subj, pats = ["obj", rng.choice(["x", "y", "v0", "o0", "s0"])], rng.sample(range(6), rng.choice([1, 2, 3]))
         cases = []
         for p in pats:
-            cases.append([p, self.arm(sc, depth - 1, "case")])
+            if rng.random() < 0.22:
+                # guard: the case is selected only when the pattern matches AND the guard holds (run-time or constant guard);
+                # the same pattern may follow without guard
+                g = rng.choice([self.cond(sc), self.cond(sc), ["optc", 0], ["optc", 1]])
+                self.stat("match-guard-" + ("constant" if g[0] == "optc" else "run-time"))
+                cases.append([p, self.arm(sc, depth - 1, "case"), g])
+                if rng.random() < 0.4:
+                    cases.append([p, self.arm(sc, depth - 1, "case")])
+            else:
+                cases.append([p, self.arm(sc, depth - 1, "case")])
+        if rng.random() < 0.1:
+            self.stat("match-guard-wildcard")
+            cases.append([None, self.arm(sc, depth - 1, "case"), self.cond(sc)])
         d = None
         if rng.random() < 0.6:
             d = self.arm(sc, depth - 1, "default")
@@ -605,10 +636,15 @@ class Gen:
                 s2["scope_top"] = False
                 s2["lv"] = True
                 body = self.block(s2, 0, n=rng.choice([0, 1])) + [["ret", self.ret_expr(s2, value)]]
-                s3 = self.sub(sc)
-                s3["scope_top"] = False
-                out.append(["forret", rng.choice([2, 3]), self.lv_cond(sc), body, self.fn_block(s3, 0, value, True)])
-                return out
+                if rng.random() < 0.5:
+                    s3 = self.sub(sc)
+                    s3["scope_top"] = False
+                    out.append(["forret", rng.choice([2, 3]), self.lv_cond(sc), body, self.fn_block(s3, 0, value, True)])
+                    return out
+                # no for-else: the statements after the loop (and the trailing return) run when no iteration returned
+                self.stat("for-return-no-else")
+                out.append(["forret", rng.choice([2, 3]), self.lv_cond(sc), body, None])
+                out += self.block(sc, 0, n=rng.choice([0, 1, 1]))
             else:
                 out += self.block(sc, min(depth, 1), n=1)
         if must_return:
@@ -689,6 +725,8 @@ def py_expr(e, ent, lv="i"):
         return f"Unsigned[4]({e[1]})" if e[2] == 4 else str(e[1])
     if k == "cb":
         return "True" if e[1] else "False"
+    if k == "optc":
+        return "OPT_T" if e[1] else "OPT_F"
     if k == "lnot":
         return f"(not {py_expr(e[1], ent, lv)})"
     if k == "land":
@@ -721,7 +759,9 @@ def py_expr(e, ent, lv="i"):
     if k == "name":
         return e[1]
     if k == "nsl":
-        return f"{e[1]}[{e[2] + e[3] - 1}:{e[2]}]"
+        return f"{e[1]}[{e[2]}]" if e[3] == 1 else f"{e[1]}[{e[2] + e[3] - 1}:{e[2]}]"
+    if k == "nview":
+        return f"{e[1]}.{e[2]}"
     if k == "add":
         return f"({py_expr(e[1], ent, lv)} + {py_expr(e[2], ent, lv)})"
     if k == "ife":
@@ -767,9 +807,10 @@ def py_block(stmts, ind, ent, lv="i"):
                 out += py_block(s[2], ind + 1, ent, lv) or [f"{pad}    pass"]
         elif k == "match":
             out.append(f"{pad}match {py_expr(s[1], ent, lv)}:")
-            for p, b in s[2]:
-                out.append(f"{pad}    case {p}:")
-                out += py_block(b, ind + 2, ent, lv) or [f"{pad}        pass"]
+            for c in s[2]:
+                guard = f" if {py_expr(c[2], ent, lv)}" if len(c) > 2 else ""
+                out.append(f"{pad}    case {'_' if c[0] is None else c[0]}{guard}:")
+                out += py_block(c[1], ind + 2, ent, lv) or [f"{pad}        pass"]
             if s[3] is not None:
                 out.append(f"{pad}    case _:")
                 out += py_block(s[3], ind + 2, ent, lv) or [f"{pad}        pass"]
@@ -902,7 +943,7 @@ class Sx:
 
     def expr(self, e, env):
         k = e[0]
-        if k in ("c", "cb"):
+        if k in ("c", "cb", "optc"):
             return f"(c {e[1]})"
         if k == "lnot":
             return f"(not {self.expr(e[1], env)})"
@@ -952,6 +993,8 @@ class Sx:
             return f"(rd {OBJS[b[2]][2]} {oid(b[2])} (t {b[1]}) 0 8)"     # reference with captured index
         if k == "nsl":
             return f"(sl (t {env[e[1]][1]}) {e[2]} {e[3]})"
+        if k == "nview":
+            return f"(t {env[e[1]][1]})"
         if k == "add":
             w = 2 if (e[1][0] == "obj" and e[1][1] in ("vi", "idx")) else 8
             return f"(add {w} {self.expr(e[1], env)} {self.expr(e[2], env)})"
@@ -1022,8 +1065,14 @@ class Sx:
             elif k == "match":
                 r = self.block(s[3], dict(env)) if s[3] is not None else "skip"
                 subj = self.expr(s[1], env)
-                for p, b in reversed(s[2]):
-                    r = f"(mc {subj} {p} {self.block(b, dict(env))} {r})"
+                for c in reversed(s[2]):
+                    b = self.block(c[1], dict(env))
+                    if len(c) == 2:
+                        r = f"(mc {subj} {c[0]} {b} {r})"
+                    elif c[0] is None:
+                        r = f"(ite {self.expr(c[2], env)} {b} {r})"
+                    else:
+                        r = f"(ite (and (eq {subj} (c {c[0]})) {self.expr(c[2], env)}) {b} {r})"
                 out.append(r)
             elif k in ("forbrk", "forret"):
                 r = self.block(s[4], dict(env)) if s[4] is not None else "skip"
@@ -1078,7 +1127,7 @@ class Sx:
 
     def prog(self):
         d = self.d
-        body = self.block(d["body"], {})
+        body = self.block(d["body"], {"__res": 0})
         conc = [(q, self.expr(e, {})) for q, e in d["conc"]] + self.conc
         # q1 may read q0: keep q0 first
         conc.sort(key=lambda c: c[0])
@@ -1238,21 +1287,23 @@ def _variants(stmts):
                 for v in _variants(s[2]):
                     yield stmts[:i] + [["if", s[1], v]] + stmts[i + 1:]
         elif k == "match":
-            subs = [b for _, b in s[2]] + ([s[3]] if s[3] is not None else [])
+            subs = [c[1] for c in s[2]] + ([s[3]] if s[3] is not None else [])
             if len(s[2]) > 1:
                 for j in range(len(s[2])):
                     yield stmts[:i] + [["match", s[1], s[2][:j] + s[2][j + 1:], s[3]]] + stmts[i + 1:]
-            for j, (p, b) in enumerate(s[2]):
-                for v in _variants(b):
-                    yield stmts[:i] + [["match", s[1], s[2][:j] + [[p, v]] + s[2][j + 1:], s[3]]] + stmts[i + 1:]
+            for j, c in enumerate(s[2]):
+                if len(c) > 2 and c[0] is not None:
+                    yield stmts[:i] + [["match", s[1], s[2][:j] + [c[:2]] + s[2][j + 1:], s[3]]] + stmts[i + 1:]
+                for v in _variants(c[1]):
+                    yield stmts[:i] + [["match", s[1], s[2][:j] + [[c[0], v] + c[2:]] + s[2][j + 1:], s[3]]] + stmts[i + 1:]
             if s[3] is not None:
                 for v in _variants(s[3]):
                     yield stmts[:i] + [["match", s[1], s[2], v]] + stmts[i + 1:]
         elif k in ("forbrk", "forret"):
             if k == "forbrk":
                 subs = [s[4]] if s[4] is not None else []
-                if s[4] is not None:
-                    yield stmts[:i] + [[k, s[1], s[2], s[3], None]] + stmts[i + 1:]
+            if s[4] is not None:
+                yield stmts[:i] + [[k, s[1], s[2], s[3], None]] + stmts[i + 1:]
             if s[1] > 1:
                 yield stmts[:i] + [[k, s[1] - 1, s[2], s[3], s[4]]] + stmts[i + 1:]
             for v in _variants(s[3]):
@@ -1449,6 +1500,28 @@ def fixed_designs():
         _as("v", O("v1"), ["add", O("v1"), C(3)]), _as("v", O("vs"), ["add", O("vs"), O("vs")]),
         _as("n", O("o3"), ["name", "m1"]), _as("n", O("sg"), ["name", "m2"]), _as("n", O("ws"), ["name", "m3"]),
         _as("n", O("w0"), ["name", "m4"]), _as("n", O("bv"), ["name", "m5"])], [fh], []))
+    # for-return loops WITHOUT for-else: the statements / the return after the loop run when no iteration returned
+    g0 = {"params": [], "value": True, "body": [["forret", 3, ["bitlv", "x"], [["ret", O("y")]], None], ["ret", O("x")]]}
+    g1 = {"params": [], "value": False, "body": [["forret", 2, ["bitlv", "y"], [_as("n", O("o1"), ["lv", 20]), ["ret", None]], None],
+                                                  _as("n", O("o1"), C(29))]}
+    g2 = {"params": ["aa"], "value": True, "body": [
+        ["forret", 2, ["eq", O("idx"), ["lv", 1]], [_as("v", O("v0"), ["add", O("v0"), C(1)]), ["ret", ["add", ["name", "aa"], ["lv", 1]]]], None],
+        ["if", [[O("c2"), [["ret", ["add", ["name", "aa"], C(7)]]]]], None], _as("n", O("o3"), C(33)), ["ret", ["add", ["name", "aa"], C(9)]]]}
+    ds.append(("law:for-return-trailing", [
+        ["calla", "n", O("o0"), 0, []], ["callp", 1, []],
+        ["if", [[O("c3"), [_as("n", O("s0"), C(41)), ["ret", None]]]], None],
+        ["forret", 2, ["bitlv", "y"], [_as("n", O("s0"), ["lv", 50]), ["ret", None]], None],
+        _as("n", O("s0"), C(59)), _as("v", O("v1"), ["add", O("v1"), C(1)])], [g0, g1], []))
+    # the same with computed return values (before fixes/C03-for-return-trailing-return.patch the compiler rejects this one:
+    # "temporary might not be initialized" - the dropped trailing return leaves the result temporary unassigned)
+    ds.append(("law:for-return-trailing-value?", [["calla", "n", O("o2"), 0, [O("x")]], _as("n", O("o3"), O("v0"))], [g2], []))
+    # guards of match cases: run-time guard, same pattern again without guard, constant guards, guard on the wildcard
+    ds.append(("law:match-guard", [
+        ["match", O("x"), [[1, [_as("n", O("o0"), C(61))], O("c0")], [1, [_as("n", O("o0"), C(62))]], [2, [_as("n", O("o0"), C(63))], ["optc", 0]],
+                           [3, [_as("n", O("o0"), C(64))], ["optc", 1]], [None, [_as("n", O("o0"), C(65))], O("c1")]], [_as("n", O("o0"), C(66))]],
+        ["match", O("idx"), [[0, [_as("n", O("o1"), C(71))], ["andb", O("c0"), O("c2")]], [2, [_as("v", O("v0"), ["add", O("v0"), C(1)])], ["eq", O("y"), C(3)]]], None],
+        ["match", O("y"), [[1, [_as("n", O("o2"), C(81))], O("c3")]], [_as("n", O("o2"), O("x"))]],
+        _as("n", O("o3"), O("v0"))], [], []))
     return [(name, {"body": b, "funcs": f, "conc": c, "dflt": dict(dfl), "stats": {}}) for name, b, f, c in ds]
 
 
@@ -1540,7 +1613,7 @@ def run(ctx: Ctx):
             raise InfraError(f"compile task crashed: {r[1]}")
         r = r[1]
         if not r["ok"]:
-            if name != "generated":
+            if name != "generated" and not name.endswith("?"):
                 raise InfraError(f"hand-written design {name} is rejected by the compiler: {r['errtype']}: {r['err']}")
             n_rej += 1
             ctx.dist["rejected:" + r["errtype"]] += 1
